@@ -141,6 +141,25 @@ func runC11(c *ShardCtx) {
 			}
 		}
 	}
+	// invalid bytes: the 'invalid encoding' errors carry position and rule prefix like every other
+	// error (line and column of the byte advanced onto), next to block errors at the same places
+	{
+		badInputs := peg.Inputs([]string{"a", "\xff", "\n"}, 3)
+		for _, body := range en.UpTo(3) {
+			idx++
+			if !c.Mine(idx) {
+				continue
+			}
+			g := &peg.Grammar{Rules: []*peg.Rule{{Name: "S", Expr: peg.Action(0, peg.Seq(body, peg.Star(peg.Any())))}}}
+			if len(peg.RefsOf(body)) > 0 {
+				g.Rules = append(g.Rules, &peg.Rule{Name: "A", Display: "the A", Expr: peg.Action(0, peg.Cls(true, false, "b"))})
+			}
+			peg.Renumber(g, 1)
+			peg.AssignArgs(g)
+			fam := &family{gens: gens2, inputs: badInputs, opts: opts[:2], scripts: faultScripts(g.Blocks(), 1, true), nontrivial: nontriv, cmp: core.CmpOpts{SkipLog: true}, confEvery: 23, confQuota: 1}
+			runGrammar(c, g, fam)
+		}
+	}
 	for _, body := range en.UpTo(n) {
 		idx++
 		if !c.Mine(idx) {
